@@ -22,11 +22,15 @@ fn program() -> String {
     for t in TYPES {
         s.push_str(&format!("    r_{0} : {0};\n", t.name()));
     }
-    s.push_str("END_VAR\nPROGRAM P1 : Main;\nEND_CONFIGURATION\n\nPROGRAM Main\nVAR\n");
+    s.push_str("END_VAR\nPROGRAM P1 : Main;\nEND_CONFIGURATION\n\nFUNCTION_BLOCK DbgBase\nVAR\n");
+    for t in TYPES {
+        s.push_str(&format!("    b_{0} : {0};\n", t.name()));
+    }
+    s.push_str("END_VAR\nEND_FUNCTION_BLOCK\n\nFUNCTION_BLOCK DbgDerived EXTENDS DbgBase\nVAR\n    own : DINT;\nEND_VAR\n    own := own + DINT#1;\nEND_FUNCTION_BLOCK\n\nPROGRAM Main\nVAR\n");
     for t in TYPES {
         s.push_str(&format!("    v_{0} : {0};\n", t.name()));
     }
-    s.push_str("    k : DINT;\nEND_VAR\n    k := k + DINT#1;\nEND_PROGRAM\n");
+    s.push_str("    fb : DbgDerived;\n    k : DINT;\nEND_VAR\n    k := k + DINT#1;\n    fb();\nEND_PROGRAM\n");
     s
 }
 
@@ -44,7 +48,7 @@ pub fn run() -> (u64, Vec<Violation>) {
     ];
     let mut out = Vec::new();
     let mut n = 0u64;
-    for api in ["queued-write", "force", "instance-write", "retain-write"] {
+    for api in ["queued-write", "force", "instance-write", "retain-write", "inherited-member-write"] {
         for (vname, value) in &values {
             for t in TYPES {
                 n += 1;
@@ -52,6 +56,7 @@ pub fn run() -> (u64, Vec<Violation>) {
                     let mut h = TestHarness::from_source(&text).map_err(|e| e.to_string())?;
                     let control = h.runtime_mut().enable_debug();
                     let mut inst: Option<(String, InstanceId)> = None;
+                    let mut inherited: Option<InstanceId> = None;
                     for (gname, gval) in h.runtime().storage().globals() {
                         if let Value::Instance(id) = gval {
                             if h.runtime().storage().get_instance_var(*id, "v_SINT").is_some() {
@@ -72,6 +77,18 @@ pub fn run() -> (u64, Vec<Violation>) {
                             control.enqueue_global_write(format!("r_{}", t.name()), value.clone());
                             (format!("r_{}", t.name()), "retain-global")
                         }
+                        "inherited-member-write" => {
+                            // the member is declared in the base FB and lives in the parent instance
+                            // (which the structural dump does not descend into): read it back the
+                            // way the evaluator does
+                            let (iname, id) = inst.clone().ok_or("no program instance")?;
+                            let Some(Value::Instance(fb)) = h.runtime().storage().get_instance_var(id, "fb").cloned() else {
+                                return Err("no fb instance".to_string());
+                            };
+                            inherited = Some(fb);
+                            control.enqueue_instance_write(fb, format!("b_{}", t.name()), value.clone());
+                            (format!("{iname}.fb.b_{}", t.name()), "inherited-fb-member")
+                        }
                         _ => {
                             let (iname, id) = inst.ok_or("no program instance")?;
                             control.enqueue_instance_write(id, format!("v_{}", t.name()), value.clone());
@@ -80,7 +97,17 @@ pub fn run() -> (u64, Vec<Violation>) {
                     };
                     let res = h.cycle();
                     let res2 = h.cycle();
-                    let dump = crate::dump::dump_runtime(h.runtime());
+                    let mut dump = crate::dump::dump_runtime(h.runtime());
+                    if let Some(fb) = inherited {
+                        let name = format!("b_{}", t.name());
+                        let leaf = match h.runtime().storage().get_instance_var_recursive(fb, &name) {
+                            Some(Value::Real(f)) => format!("Real({:?}/{:#x})", f, f.to_bits()),
+                            Some(Value::LReal(f)) => format!("LReal({:?}/{:#x})", f, f.to_bits()),
+                            Some(other) => format!("{other:?}"),
+                            None => "<missing>".to_string(),
+                        };
+                        dump.insert(path.clone(), leaf);
+                    }
                     Ok::<_, String>((path, name, dump, format!("{:?}{:?}", res.errors, res2.errors)))
                 });
                 let (path, kind, dump, errs) = match r {
